@@ -1,5 +1,251 @@
+//! C16 — SET components in canonical tag order (X.680 8.6), tags per X.680; SEQUENCE textual.
+//! (a) expand level: every permutation of every <=k subset of the 13-component pool x marker
+//!     position, as SET and SEQUENCE, through the REAL front end + generator + attribute parser +
+//!     expand(): order of write_value/read_value calls and TAG constants;
+//! (b) wire level: the compiled permutations (<=2 / <=3 components, every second one OPTIONAL)
+//!     against refper, all presence patterns.
+
 use crate::*;
-pub fn run(_args: &Args) -> ! {
-    machinery_error("C16 not built yet")
+use quote::ToTokens;
+use rayon::prelude::*;
+use vcore::zoo_c16::{helper_defs, make_type, orderings, pool};
+
+#[derive(Debug, Clone)]
+struct ExpCase {
+    set: bool,
+    ord: Vec<usize>,
+    /// number of root components (None = no marker); additions are the rest, in ascending tag order
+    marker: Option<usize>,
 }
-pub fn replay(_ctx: &Ctx, _c: &J, _agg: &mut Agg) {}
+
+fn build(c: &ExpCase) -> (Module, Ty) {
+    let mut ord = c.ord.clone();
+    if let Some(k) = c.marker {
+        // profile P (DESIGN 4.4): extension additions textually in canonical tag order
+        let probe = helper_defs(Module::new("Zx"));
+        let p = pool();
+        let comps: Vec<Comp> = ord.iter().map(|i| p[*i].clone()).collect();
+        let tags = refper::comp_tags(&probe, &comps);
+        let mut adds: Vec<(vcore::schema::Tag, usize)> = (k..ord.len()).map(|j| (tags[j], ord[j])).collect();
+        adds.sort();
+        for (j, (_, o)) in adds.into_iter().enumerate() {
+            ord[k + j] = o;
+        }
+    }
+    let ty = make_type(c.set, &ord, c.marker);
+    let m = helper_defs(Module::new("Zx")).def("Tx", ty.clone());
+    (m, ty)
+}
+
+fn camel(field: &str) -> String {
+    // generated helper names: AsnDef<Type>Field<FieldName in UpperCamel>
+    let mut out = String::new();
+    let mut up = true;
+    for ch in field.chars() {
+        if ch == '_' || ch == '-' {
+            up = true;
+        } else if up {
+            out.push(ch.to_ascii_uppercase());
+            up = false;
+        } else {
+            out.push(ch);
+        }
+    }
+    out
+}
+
+struct Expanded {
+    write_order: Vec<String>,
+    read_order: Vec<String>,
+    field_tags: Vec<(String, String)>,
+}
+
+fn expand_type(text: &str) -> Result<Expanded, String> {
+    let code = asn1rs_model::proc_macro::asn_to_rust(text);
+    let file = syn::parse_file(&code).map_err(|e| format!("generated code does not parse: {e}"))?;
+    for item in file.items {
+        if let syn::Item::Struct(mut s) = item {
+            if s.ident != "Tx" {
+                continue;
+            }
+            let attr = s.attrs.iter().find(|a| a.path().is_ident("asn")).ok_or("no #[asn] attribute")?.clone();
+            s.attrs.retain(|a| !a.path().is_ident("asn"));
+            let attr_tokens = match &attr.meta {
+                syn::Meta::List(l) => l.tokens.clone(),
+                _ => return Err("unexpected attribute form".into()),
+            };
+            let field_names: Vec<String> = match &s.fields {
+                syn::Fields::Named(n) => n.named.iter().map(|f| f.ident.as_ref().unwrap().to_string()).collect(),
+                _ => vec![],
+            };
+            let (def, _item) = asn1rs_model::proc_macro::parse_asn_definition(attr_tokens, s.to_token_stream()).map_err(|e| format!("attribute re-parse failed: {e}"))?;
+            let out: String = asn1rs_model::proc_macro::expand(def).iter().map(|t| t.to_string()).collect::<Vec<_>>().join(" ");
+            // order of write_value calls
+            let wpos = out.find("fn write_seq").ok_or("no write_seq in expansion")?;
+            let wbody = &out[wpos..];
+            let wend = wbody.find("Ok (())").unwrap_or(wbody.len());
+            let mut write_order = vec![];
+            let mut rest = &wbody[..wend];
+            while let Some(p) = rest.find("& self .") {
+                let tail = rest[p + 8..].trim_start();
+                let name: String = tail.chars().take_while(|c| c.is_alphanumeric() || *c == '_' || *c == '#').collect();
+                write_order.push(name.trim_start_matches("r#").to_string());
+                rest = &rest[p + 8..];
+            }
+            // order of the struct literal fields in read_seq
+            let rpos = out.find("fn read_seq").ok_or("no read_seq in expansion")?;
+            let rbody = &out[rpos..wpos.max(rpos)];
+            let rbody = if wpos > rpos { rbody } else { &out[rpos..] };
+            let mut read_order = vec![];
+            let mut rest = rbody;
+            while let Some(p) = rest.find(":: read_value (reader)") {
+                // the field name is the identifier before the preceding ':' of "name : AsnDef..Field.. :: read_value"
+                let before = &rest[..p];
+                if let Some(colon) = before.rfind(" : AsnDef") {
+                    let name: String = before[..colon].chars().rev().take_while(|c| c.is_alphanumeric() || *c == '_' || *c == '#').collect::<String>().chars().rev().collect();
+                    read_order.push(name.trim_start_matches("r#").to_string());
+                }
+                rest = &rest[p + 10..];
+            }
+            // TAG constant of every field
+            let mut field_tags = vec![];
+            for f in &field_names {
+                let key = format!("for ___asn1rs_TxField{}Constraint {{ const TAG", camel(f));
+                if let Some(p) = out.find(&key) {
+                    let tail = &out[p..];
+                    let eq = tail.find('=').unwrap_or(0);
+                    let semi = tail.find(';').unwrap_or(tail.len());
+                    let t = tail[eq + 1..semi].replace(":: asn1rs :: model :: asn :: Tag ::", "").replace(' ', "");
+                    field_tags.push((f.clone(), t));
+                } else {
+                    field_tags.push((f.clone(), "<no TAG constant found>".into()));
+                }
+            }
+            return Ok(Expanded { write_order, read_order, field_tags });
+        }
+    }
+    Err("generated code has no struct Tx".into())
+}
+
+fn tag_str(t: &vcore::schema::Tag) -> String {
+    use vcore::schema::TagClass::*;
+    match t.class {
+        Universal => format!("Universal({})", t.num),
+        Application => format!("Application({})", t.num),
+        Context => format!("ContextSpecific({})", t.num),
+        Private => format!("Private({})", t.num),
+    }
+}
+
+fn check_expand(c: &ExpCase) -> Vec<Failure> {
+    let (m, ty) = build(c);
+    let text = m.asn();
+    let case = json!({"kind": "c16", "level": "expand", "set": c.set, "ord": c.ord, "marker": c.marker, "asn": ty.asn()});
+    let mk = |class: &str, exp: String, obs: String| Failure { class: format!("c16.expand.{}.{class}", if c.set { "set" } else { "sequence" }), case: case.clone(), expected: exp, observed: obs };
+    let (comps, ext_after) = match &ty {
+        Ty::Seq { comps, ext_after, .. } => (comps, ext_after),
+        _ => unreachable!(),
+    };
+    let exp = match catch(|| expand_type(&text)) {
+        Err(p) => return vec![mk("front-end-panic", "expansion".into(), format!("panic: {p}"))],
+        Ok(Err(e)) => return vec![mk("expansion-failed", "expansion".into(), e)],
+        Ok(Ok(x)) => x,
+    };
+    let mut out = vec![];
+    let nroot = ext_after.unwrap_or(comps.len());
+    let root: Vec<usize> = (0..nroot).collect();
+    let mut order = refper::root_order(&m, c.set, comps, &root);
+    order.extend(nroot..comps.len());
+    let want: Vec<String> = order.iter().map(|i| comps[*i].name.clone()).collect();
+    let involves_choice_ref = comps.iter().any(|x| x.name == "rc");
+    let involves_set_ref = comps.iter().any(|x| x.name == "rt");
+    let sfx = if involves_choice_ref { ".with-untagged-choice-reference" } else if involves_set_ref { ".with-untagged-set-reference" } else { "" };
+    if exp.write_order != want {
+        out.push(mk(&format!("write-order{sfx}"), want.join(","), exp.write_order.join(",")));
+    }
+    if exp.read_order != want {
+        out.push(mk(&format!("read-order{sfx}"), want.join(","), exp.read_order.join(",")));
+    }
+    let tags = refper::comp_tags(&m, comps);
+    for (i, cmp) in comps.iter().enumerate() {
+        let got = exp.field_tags.iter().find(|(f, _)| *f == cmp.name).map(|x| x.1.clone()).unwrap_or_default();
+        if got != tag_str(&tags[i]) {
+            let which = if cmp.name == "rc" { "untagged-choice-reference" } else if cmp.name == "rt" { "untagged-set-reference" } else if cmp.tag.is_some() { "explicit" } else if comps.iter().all(|x| x.tag.is_none()) { "automatic" } else { "own-type-tag" };
+            out.push(mk(&format!("field-tag.{which}"), format!("{}: {}", cmp.name, tag_str(&tags[i])), format!("{}: {got}", cmp.name)));
+        }
+    }
+    out
+}
+
+fn expand_space(thorough: bool) -> Vec<ExpCase> {
+    let k = if thorough { 5 } else { 3 };
+    let mut out = vec![];
+    for ord in orderings(pool().len(), k) {
+        for set in [true, false] {
+            out.push(ExpCase { set, ord: ord.clone(), marker: None });
+            for m in 1..=ord.len() {
+                out.push(ExpCase { set, ord: ord.clone(), marker: Some(m) });
+            }
+        }
+    }
+    out
+}
+
+pub fn run(args: &Args) -> ! {
+    reference_selfcheck();
+    let mut report = Report::new(args, "model_checking");
+    let ctx = Ctx::new(args.tier);
+    // (a) expand level
+    let space = expand_space(ctx.thorough);
+    let fails: Vec<Vec<Failure>> = space.par_iter().map(check_expand).collect();
+    let mut agg = Agg::new();
+    for fs in fails {
+        for f in fs {
+            let e = agg.fails.entry(f.class.clone()).or_insert((0, f));
+            e.0 += 1;
+        }
+    }
+    // (b) wire level on the compiled permutations: bits vs refper for every presence pattern
+    let mut wire_types = 0u64;
+    for e in ctx.reg.iter().filter(|e| ctx.group_of(e) == "c16" && (ctx.thorough || ctx.zoo[e.module_index].quick)) {
+        if !e.def.starts_with("Tt") && !e.def.starts_with("Ts") || e.def == "Tsq" || e.def == "Tst" {
+            continue;
+        }
+        wire_types += 1;
+        let b = Budget { max_size: 8, nested_leaf: 2, product_cap: 64, ext_out: false, large_sizes: &[] };
+        let m = ctx.module_of(e);
+        for v in values::values(m, &ctx.def_of(e).ty, &b) {
+            check_c02_case(&ctx, e, &v, &mut agg);
+        }
+    }
+    for (k, (n, f)) in std::mem::take(&mut agg.fails) {
+        report.merge(k, n, f);
+    }
+    let wire_cases = agg.counters.get("evaluations").copied().unwrap_or(0);
+    if wire_cases == 0 || space.is_empty() {
+        machinery_error("C16: vacuous run");
+    }
+    let mut cov = Map::new();
+    cov.insert("exhaustive".into(), json!(true));
+    cov.insert("evaluations".into(), json!(space.len() as u64 + wire_cases));
+    cov.insert("distinct_nontrivial".into(), json!(space.iter().filter(|c| c.ord.len() >= 2).count() as u64 + agg.counters.get("nontrivial").copied().unwrap_or(0)));
+    cov.insert("states".into(), json!(space.len()));
+    cov.insert("transitions".into(), json!(space.len() as u64 + wire_cases));
+    cov.insert("traces_validated_against_impl".into(), json!(wire_cases));
+    cov.insert("expand_level".into(), json!({"definitions_expanded": space.len(), "max_components": if ctx.thorough { 5 } else { 3 }, "pool": pool().iter().map(|c| format!("{} {}{}", c.name, c.tag.map(|t| t.asn() + " ").unwrap_or_default(), c.ty.asn())).collect::<Vec<_>>()}));
+    cov.insert("wire_level".into(), json!({"compiled_types": wire_types, "type_value_cases": wire_cases}));
+    cov.insert("rule".into(), json!("(a) every permutation of every <=k subset of the 13-component pool x marker position {none, after i} (additions in ascending tag order), as SET and as SEQUENCE, is printed, run through the real front end + generator + attribute re-parser + expand(); the order of write_value calls and of read_seq's struct-literal fields must equal the X.680 8.6 canonical order of the ROOT components followed by the additions (SEQUENCE: textual), and every field's TAG constant the X.680 tag (explicit, referenced type's, or automatic only if no component is tagged). (b) the compiled permutations: bits == refper for every presence pattern. non-trivial = >= 2 components (order can matter)"));
+    cov.insert("samples".into(), json!([{"set": true, "components": "c3 [3], x [UNIVERSAL 30], rs Tsq", "expected_order": "x, rs, c3"}, space.get(1234.min(space.len() - 1)).map(|c| json!({"set": c.set, "ord": c.ord, "marker": c.marker, "asn": build(c).1.asn()}))]));
+    report.finish(cov, vec!["expected order/tags come from vcore::refper::{comp_tags, root_order} (X.680 8.6, 25.x, 29.x), validated against the repository's playground SET vectors".into()])
+}
+
+pub fn replay(ctx: &Ctx, c: &J, agg: &mut Agg) {
+    if c["level"] == "expand" {
+        let case = ExpCase { set: c["set"].as_bool().unwrap(), ord: c["ord"].as_array().unwrap().iter().map(|x| x.as_u64().unwrap() as usize).collect(), marker: c["marker"].as_u64().map(|x| x as usize) };
+        for f in check_expand(&case) {
+            let e = agg.fails.entry(f.class.clone()).or_insert((0, f));
+            e.0 += 1;
+        }
+    }
+    let _ = ctx;
+}
